@@ -32,6 +32,7 @@ RULE = (
     "tests/data/squeue_status.txt (quick: 2 x 30 000 executions, thorough: 8 x 600 000). non-trivial = script: >= 3 optional fields; status: target present in a non-finished state; "
     "submit: exit 0 with unparsable text; retry: > 1 execution; distinct by hash of the case"
 )
+RULE += " Later additions (DESIGN.md 9): " + 'scripts: 1-3 batches per group through the same manager object; flow (one case in twelve): whole generated submissions in the simulation world with unusual-state windows, status-query outages and operator rounds -- a recorded batch id disappears only when the simulated scheduler no longer holds the batch as PENDING/RUNNING, and after a finished round every PENDING/RUNNING batch is recorded.'
 ASSUMPTIONS = [
     "the spelling of multi-word sbatch options is not fixed by the statement: '--ntasks_per_node' (as emitted) and "
     "'--ntasks-per-node' (as sbatch spells it) are both accepted; recorded as an observation in DESIGN.md",
